@@ -225,6 +225,39 @@ pub fn statement_trees() -> Vec<(String, Vec<S>)> {
             out.push((format!("last after {}", n1), wrapped));
         }
     }
+    // token adjacency across a statement boundary: every leaf that can end a statement x every first token of the next one
+    let starts: Vec<S> = vec![
+        S::Assign(vec![id("_")], vec![E::Num(1.0)]),
+        S::Assign(vec![E::Field(Box::new(id("_G")), "t")], vec![E::Num(1.0)]),
+        S::Assign(vec![id("e1")], vec![E::Num(1.0)]),
+        S::Assign(vec![id("E")], vec![E::Num(1.0)]),
+        S::Assign(vec![id("x1")], vec![E::Num(1.0)]),
+        S::Assign(vec![id("p2")], vec![E::Num(1.0)]),
+        S::Call(call(id("_f"), vec![])),
+        S::Call(call(id("f"), vec![])),
+        S::Call(E::Call(Box::new(E::Paren(Box::new(id("a")))), Args::Tuple(vec![]))),
+        S::Call(E::Method(Box::new(id("_o")), "m", Args::Tuple(vec![]))),
+        S::Do(vec![]),
+        S::If(vec![(id("a"), vec![])], None),
+        S::While(id("a"), vec![]),
+        S::NumFor("_i", E::Num(1.0), E::Num(2.0), None, vec![]),
+        S::Function("_f", vec![], None, vec![], false, vec![]),
+        S::Local(vec![("_x", None)], vec![]),
+        S::LocalFunction("_f", vec![], false, vec![]),
+        S::Repeat(vec![], id("a")),
+        S::TypeDecl(false, "T", vec![], Ty::Name("number")),
+        S::TypeDecl(true, "T", vec![], Ty::Name("number")),
+        S::Return(vec![id("_")]),
+        S::Return(vec![E::Num(1.0)]),
+    ];
+    for leaf in fusion_leaves(true) {
+        for next in &starts {
+            out.push(("boundary local".into(), vec![S::Local(vec![("x", None)], vec![leaf.clone()]), next.clone()]));
+            out.push(("boundary assign".into(), vec![S::Assign(vec![id("x")], vec![id("a"), leaf.clone()]), next.clone()]));
+            out.push(("boundary compound".into(), vec![S::Compound(BinOp::Add, id("x"), leaf.clone()), next.clone()]));
+            out.push(("boundary until".into(), vec![S::Repeat(vec![], leaf.clone()), next.clone()]));
+        }
+    }
     // nested blocks
     for (n, s) in &stats {
         out.push((format!("nested {}", n), vec![S::Do(vec![S::If(vec![(id("a"), vec![s.clone()])], Some(vec![s.clone()]))]), S::LocalFunction("g", vec![], false, vec![s.clone(), S::Return(vec![])])]));
